@@ -35,6 +35,8 @@ CHECKS = [
 ]
 
 NOT_APPLICABLE = [
+    {"property_id": "C09", "reason": "the assembler is a lark (Earley) grammar plus tree transformers over text: a symbolic numeral inside the source string is concretised by the parser and by every str operation, so each operand value would be enumerated (sampling, not a solver verdict); the parser-free inverse, encode(decode(b)) == b, is claimed as C02; see DESIGN.md 9.7"},
+    {"property_id": "C10", "reason": "two-pass layout of whole source programs goes through the same text parser (lark) and through bincopy; program text cannot be made symbolic without enumerating it; see DESIGN.md 9.7"},
     {"property_id": "C16", "reason": "snapshot save/load crosses zipfile/json/file I/O (Python) and a feature whose zip dependency is absent (Rust); not encodable, see DESIGN.md C16"},
 ]
 _PENDING = "check not built yet in this round (work in progress; see DESIGN.md section 6 for the order of work)"
@@ -122,6 +124,14 @@ CHECKS.append({
     "id": "C12", "engine": "rsym", "level": "other", "design_ref": "DESIGN.md section 9 / C12",
     "technique": "inductive step decided by z3: one CoreRuntime::step of the real Rust runtime (LLVM IR, rsym) from an arbitrary interrupt-controller state (IMR, ISR, pending / in-interrupt / key-latch flags, power state, F, stack contents, vector, timer targets symbolic) for a set of programs at PC (NOP, RETI, HALT, OFF, writes to IMR/ISR), compared with the interrupt rules of the property statement",
     "level_text": "Rust runtime only. z3 decides for all controller states that an interrupt is taken only with the master enable and an unmasked pending source and never while powered off; that taking it pushes exactly IMR, F and the resume PC, clears only the master enable, continues at the vector and marks the handler; that an unmasked pending request is taken in the very next step; that nothing is pushed otherwise; that a halted / powered-off CPU executes nothing and leaves that state exactly when a status bit is pending; that a powered-off CPU does not advance the timers; and that RETI restores IMR, F, PC and S. The Python machine (PCE500Emulator.step) is not encoded; its instruction-level half (IR;RETI) is C05.",
+    "level_note": _RS_NOTE,
+})
+NOT_APPLICABLE[:] = [n for n in NOT_APPLICABLE if n["property_id"] not in {c["id"] for c in CHECKS}]
+RUNNERS["C18"] = ("sched_check", "main", ())
+CHECKS.append({
+    "id": "C18", "engine": "rsym", "level": "other", "design_ref": "DESIGN.md section 9 / C18",
+    "technique": "symbolic execution of the real AsyncDriver (spawn / run_for, CycleSleep, emit_event; LLVM IR via rsym) with real async tasks whose sleep durations and run_for budgets are z3 variables; finite case split over task shapes and call counts; two runs of the same tasks under different budget sequences; z3 decides the scheduler obligations on every path",
+    "level_text": "First half of the property only (the scheduler itself). z3 decides for all 6-bit sleep durations (0 included) and budgets, for 1-3 tasks with up to 3 sleeps and 2-4 run_for calls, that every task is resumed exactly at the sum of its sleeps, once and in program order, that virtual time never moves backwards, that run_for accounts its cycles, stays inside its budget and leaves no due task sleeping when it reports MaxCycles, that events come back exactly once in emission order, and that wake order and cycles do not depend on the budget partition (common prefix of two runs). Not covered: driving the CPU through the scheduler (async_cpu / async_runtime / async_devices) versus the synchronous step loop.",
     "level_note": _RS_NOTE,
 })
 NOT_APPLICABLE[:] = [n for n in NOT_APPLICABLE if n["property_id"] not in {c["id"] for c in CHECKS}]
